@@ -16,6 +16,24 @@ theorem par_output (sep : Option Bytes) (bufs : List Bytes) :
   rw [foldl_bwPrint]
   simp
 
+/-- **Lock discipline**: for every interleaving of the workers' events (any number of workers, any
+schedule), stdout is `outPar` of the buffers in the order of the `print` events, each being exactly what
+its worker wrote since its last `clear()` — nothing of another file, nothing of another worker. -/
+theorem sched_output (sep : Option Bytes) (evs : List Ev) :
+    outSched sep evs = outPar sep (printed evs (fun _ => [])) := by
+  have key : ∀ (evs : List Ev) (st : Par),
+      (evs.foldl (parStep sep) st).bw = (printed evs st.bufs).foldl (bwPrint sep) st.bw := by
+    intro evs
+    induction evs with
+    | nil => intro st; rfl
+    | cons e rest ih =>
+      intro st
+      cases e with
+      | search w blk => simp only [List.foldl_cons, printed]; exact ih _
+      | print w => simp only [List.foldl_cons, printed]; exact ih _
+  unfold outSched outPar
+  rw [key]
+
 /-- **Single-threaded**: the files in traversal order, `separator ++ line terminator` between neighbours. -/
 theorem seq_output (sep : Option Bytes) (term : Bytes) (blks : List Bytes) :
     outSeq sep term blks = joinSep (sepLine sep term) (nonempty blks) := by
